@@ -168,7 +168,11 @@ class Cmd:
             if i == 0 and s.mid: parts.append(s.mid)
             if i % 2 == 0 and len(s.pieces) > 1: parts.append('sleep 0.01')
         if s.post: parts.append(s.post)
-        if s.burst: parts.append("head -c %d /dev/zero | tr '\\000' x; echo" % s.burst)
+        if s.burst:
+            # deterministic "exits with most of its output still in the pipe": ninja (the parent) is stopped while the burst is
+            # written and the command exits; a detached helper continues it 0.2 s later
+            if not s.code and not s.restat: parts.append('touch ' + s.out())
+            parts.append("(sleep 0.2; kill -CONT $PPID) >/dev/null 2>&1 & kill -STOP $PPID; head -c %d /dev/zero | tr '\\000' x; echo" % s.burst)
         if s.code: parts.append('exit %d' % s.code)
         elif not s.restat: parts.append('touch ' + s.out())
         return '; '.join(parts)
@@ -333,7 +337,7 @@ def real_scenarios(rnd, quick):
     for i in range(2 if quick else 8):
         cmds = [Cmd(0, piece_sets(rnd, 0, 'plain')), Cmd(1, piece_sets(rnd, 1, rnd.choice(['plain', 'multi'])), deps=['o0'], code=(3 if i % 2 else 0)),
                 Cmd(2, piece_sets(rnd, 2, 'plain'), deps=['o0']), Cmd(3, piece_sets(rnd, 3, 'plain'), deps=['o2'])]
-        cmds[1].burst = rnd.choice([9000, 70000, 150000]); cmds[2].burst = rnd.choice([5000, 100000])
+        cmds[1].burst = rnd.choice([9000, 30000, 60000]); cmds[2].burst = rnd.choice([5000, 12000, 50000])
         sc.append(('burst%d' % i, cmds, ['-j%d' % rnd.choice([1, 3]), '-k', '0'], rnd.choice(['default', 'env']), None))
     # unterminated outputs (the glue pattern)
     for i in range(2 if quick else 6):
